@@ -16,6 +16,10 @@ CHECKS = {
    tech="TLA+ spec MemBudget.tla model-checked by TLC (safety + termination); TLC schedules driven through the real MemoryBudget by a puppeteer at hook points",
    text="TLC explores every interleaving of 2 threads x 2 calls (3 threads x 1 call in thorough) at the granularity of the code's atomic operations; each explored transition is a schedule that is forced on the real code, comparing path, results and pool counters after every step and evaluating HardLimit/Accounting on the observed counters",
    note="schedule points only where hooks are (total_used() is one step); sizes {5,8} units near a 32-unit limit; cross-pool race is a recorded finding whose region is carved out by the ghost variable `overlap`"),
+ "C36": dict(cat="model_checking", ref="DESIGN.md 3.4, 6 (C36)",
+   tech="TLA+ spec PageLocks.tla model-checked by TLC (safety + liveness); TLC schedules driven through the real PageLockManager by a puppeteer at hook points",
+   text="TLC explores every interleaving of 2 threads x 3 lock/unlock/table-intent operations over 2 pages (3 threads in thorough) with one action per critical section of the code, checks MutexW/NoRW/TablesEmptyWhenIdle and AcquireSucceeds under weak fairness; each explored transition is forced on the real lock manager, with the harness's own occupancy table and the lock-table sizes compared after every step",
+   note="blocking is modelled as disabledness (schedules never park a thread inside a contended lock); schedule points exist only at the hooks; page_write_multi not modelled"),
 }
 
 NOT_APPLICABLE = {}
